@@ -245,8 +245,39 @@ def unit_markfree(tier):
     return ck
 
 
+SCHED_C = r"""
+#include <pthread.h>
+#include <sched.h>
+/* controlled-scheduler replay: real threads run the real mj_stackAllocByte; vf_atomic_point() is called (IR instrumentation) before every atomic access
+   and every store of engine_memory.c and lets a thread proceed only when the solver's schedule says it is that thread's turn */
+static int vf19_sched[64], vf19_n = 0, vf19_on = 0; static int vf19_pos = 0;
+static __thread int vf19_id = -1; static __thread int vf19_pending = 0;
+static void vf19_done_access(void) { if (vf19_pending) { vf19_pending = 0; __atomic_fetch_add(&vf19_pos, 1, __ATOMIC_SEQ_CST); } }
+void vf_atomic_point(void) {
+  if (!vf19_on || vf19_id < 0) return;
+  vf19_done_access();
+  long spins = 0;
+  while (1) { int p = __atomic_load_n(&vf19_pos, __ATOMIC_SEQ_CST); if (p >= vf19_n || vf19_sched[p] == vf19_id) break; sched_yield(); if (++spins > 400000000L) break; }
+  vf19_pending = 1;
+}
+struct vf19_arg { void* d; unsigned long size, al; void* ret; int id; };
+extern void* mj_stackAllocByte(void*, unsigned long, unsigned long);
+static void* vf19_thread(void* a_) { struct vf19_arg* a = a_; vf19_id = a->id; vf19_pending = 0; a->ret = mj_stackAllocByte(a->d, a->size, a->al); vf19_done_access(); vf19_id = -1; return 0; }
+int vf19_run(void* d, int nth, unsigned long* sizes, unsigned long* als, int* sched, int n, unsigned long* rets) {
+  pthread_t th[8]; struct vf19_arg a[8];
+  if (nth > 8 || n > 64) return -1;
+  for (int i = 0; i < n; i++) vf19_sched[i] = sched[i];
+  vf19_n = n; vf19_pos = 0; vf19_on = 1;
+  for (int t = 0; t < nth; t++) { a[t].d = d; a[t].size = sizes[t]; a[t].al = als[t]; a[t].id = t; a[t].ret = 0; pthread_create(&th[t], 0, vf19_thread, &a[t]); }
+  for (int t = 0; t < nth; t++) { pthread_join(th[t], 0); rets[t] = (unsigned long)a[t].ret; }
+  vf19_on = 0;
+  return vf19_pos;
+}
+"""
+
+
 def so_hook():
-    if 'soh' not in _c: _c['soh'] = build.native_lib(['src/engine/engine_memory.c'], ['src/engine/engine_util_errmem.c'], name='memory_hook', hook_atomics=True)
+    if 'soh' not in _c: _c['soh'] = build.native_lib(['src/engine/engine_memory.c'], ['src/engine/engine_util_errmem.c'], name='memory_sched', hook_atomics='points', extra_c=SCHED_C)
     return _c['soh']
 
 
@@ -270,31 +301,27 @@ def unit_threadlock(tier, nthreads=2, al_fixed=None):
     dobj = S.w.map[S.d].obj; poff = S.off['pstack']
     ex.is_shared = lambda stt, p: isinstance(p, llsym.Ptr) and p.obj == dobj and p.off == poff
     calls = [('@mj_stackAllocByte', [S.w.P(S.d), sizes[t], als[t]]) for t in range(nthreads)]
-    outs = llconc.interleavings(ex, st, calls, max_schedules=int(os.environ.get('VERIF_C19_SCHED', '20000')))
+    outs = llconc.interleavings(ex, st, calls, max_schedules=int(os.environ.get('VERIF_C19_SCHED', '20000')), dedupe=True)
     sched_var = z3.BitVec('schedule', 16)
     def seq_replay(sched, blocks, ps2):
         def replay(model, witness):
             values = S.w.concretise(model)
-            # collapse the schedule to thread order at segment granularity: [a.., b.., a..] = "b runs entirely inside a, just before a's atomic add"
-            order = []
+            # a thread's first segment runs up to (not including) its first access of d->pstack; every later segment starts with one such access:
+            # the order of the accesses is the schedule without each thread's first entry
+            seen_t = set(); acc = []
             for t in sched:
-                if not order or order[-1] != t: order.append(t)
-            detail = {'schedule': sched, 'collapsed': order}
+                if t in seen_t: acc.append(t)
+                else: seen_t.add(t)
+            detail = {'schedule': sched, 'order of accesses to d->pstack': acc}
             def child():
                 lib = W.load_lib(so_hook()); nw = W.NativeWorld(S.w, values)
-                f = lib.mj_stackAllocByte; f.restype = ctypes.c_uint64
-                rets = {}
-                def call(t): rets[t] = f(*W._cargs(nw, [('ptr', (S.d, 0)), ('u64', sizes[t]), ('u64', als[t])]))
-                if len(order) == len(set(order)):
-                    for t in order: call(t)
-                elif len(order) == 3 and order[0] == order[2] and nthreads == 2:
-                    HOOK = ctypes.CFUNCTYPE(None)
-                    inner = order[1]
-                    cb = HOOK(lambda: call(inner))
-                    lib.vf_set_sched_hook(cb); call(order[0])
-                else:
-                    return {'unsupported_schedule': order}
-                return {'rets': {str(k): v for k, v in rets.items()}, 'pstack': nw.read(S.d, S.off['pstack'], 'u64')}
+                U = ctypes.c_ulong * nthreads
+                sz = U(*[int(W.evalnum(model, x)) for x in sizes]); al = U(*[int(W.evalnum(model, x)) for x in als]); out = U()
+                sc = (ctypes.c_int * max(1, len(acc)))(*acc)
+                dp = W._cargs(nw, [('ptr', (S.d, 0))])[0]
+                lib.vf19_run.restype = ctypes.c_int
+                npos = lib.vf19_run(dp, nthreads, sz, al, sc, len(acc), out)
+                return {'rets': {str(t): int(out[t]) for t in range(nthreads)}, 'pstack': nw.read(S.d, S.off['pstack'], 'u64'), 'accesses scheduled': npos}
             status = W.run_child(child)
             detail['native'] = status[0]
             if status[0] != 'ok' or 'rets' not in status[1]: detail['native_detail'] = str(status[1:])[:300]; return False, detail
@@ -305,6 +332,8 @@ def unit_threadlock(tier, nthreads=2, al_fixed=None):
         return replay
     nsched = 0
     for si, (sN, sched, rets, outcome) in enumerate(outs):
+        if outcome == 'pruned':
+            ck.memory_obligations([llsym.Result('return', sN)], decode=dec(S, X)); continue      # same global state reached by an earlier schedule
         if outcome != 'return':
             if outcome.startswith('error'): continue      # stack overflow error: allowed outcome (fatal handler)
             ck.inconclusive.append('threadlock schedule %s: %s' % (sched, outcome)); continue
@@ -318,6 +347,8 @@ def unit_threadlock(tier, nthreads=2, al_fixed=None):
         for t, a_ in live:
             ck.prove('threadlock %s: block of thread %d aligned, inside [arena top, old stack top)' % (tag, t), pc,
                      z3.And(a_ & (als[t] - 1) == 0, z3.UGE(a_, S.limit), z3.ULE(a_, S.top), z3.ULE(sizes[t], S.top - a_)), site='stackalloc:threadlock-inside', decode=dec(S, X), replay=rp)
+            ck.prove('threadlock %s: block of thread %d lies inside the span that is reserved once every thread has returned (no later reservation can be handed the same bytes)' % (tag, t), pc,
+                     z3.And(z3.ULE(ps2, S.narena), z3.UGE(a_, S.bottom - ps2)), site='stackalloc:threadlock-reserved', decode=dec(S, X), replay=rp)
         for (t1, a1), (t2, a2) in itertools.combinations(live, 2):
             ck.prove('threadlock %s: blocks of threads %d and %d are disjoint' % (tag, t1, t2), pc,
                      z3.Or(z3.And(z3.ULE(a1, a2), z3.ULE(sizes[t1], a2 - a1)), z3.And(z3.ULE(a2, a1), z3.ULE(sizes[t2], a1 - a2))), site='stackalloc:threadlock-disjoint', decode=dec(S, X), replay=rp)
